@@ -24,7 +24,10 @@ def build_args(inp):
         L = {}
         for k, (v, typ) in inp['L']:
             vals = list(LABELS[v])
-            L[name(k)] = set(vals) if typ == 'set' else (tuple(vals) if typ == 'tuple' else vals)
+            # a label set may come as any collection of atomic propositions
+            L[name(k)] = {'set': set, 'tuple': tuple, 'list': list, 'frozenset': frozenset,
+                          'keys': lambda v: dict((x, None) for x in v).keys(),
+                          'deque': lambda v: __import__('collections').deque(v)}[typ](vals)
     if L is not None and inp.get('ltype'):
         import collections
         if inp['ltype'] == 'ordered':
@@ -317,7 +320,7 @@ def case_iter(n):
             # S0: none, empty, subset with outsider, everything
             S0_opts = [None, [], [uni[0], 'out'] if uni else ['out'], uni + ['out']]
             L_opts = [None, [],
-                      [(u, ((u + mask) % len(LABELS), ('set', 'list', 'tuple')[(u + si) % 3])) for u in uni],
+                      [(u, ((u + mask) % len(LABELS), ('set', 'list', 'tuple', 'frozenset', 'keys', 'deque')[(u + si + mask) % 6])) for u in uni],
                       [(uni[-1] if uni else 'out', (1, 'list')), ('out', (2, 'set'))]]
             for zi, S0 in enumerate(S0_opts):
                 for li, Lc in enumerate(L_opts):
@@ -404,7 +407,7 @@ def random_shard(st, shard, nshards, payload):
         S = draw(hs.one_of(hs.none(), hs.lists(hs.sampled_from(uni), unique=True)))
         S0 = draw(hs.one_of(hs.none(), hs.lists(hs.sampled_from(uni + ['out']), unique=True)))
         Lk = draw(hs.lists(hs.sampled_from(uni + ['out']), unique=True))
-        L = [(k, (draw(hs.integers(0, len(LABELS) - 1)), draw(hs.sampled_from(['set', 'list', 'tuple']))))
+        L = [(k, (draw(hs.integers(0, len(LABELS) - 1)), draw(hs.sampled_from(['set', 'list', 'tuple', 'frozenset', 'keys', 'deque']))))
              for k in Lk]
         V = draw(hs.lists(hs.sampled_from(uni + ['out?']), unique=True))
         return {'n': n, 'S': S, 'S0': S0, 'R': R, 'L': draw(hs.sampled_from([None, L, L, L])),
